@@ -195,7 +195,11 @@ def _benign_one(args):
             return (name, "skipped", "")
         try:
             ctx = analyse(prop, tmp, thorough=False)
-            new = [f for f in ctx.findings if f.key not in base]
+            from .runner import load_known, match_known
+
+            known = load_known()
+            fns = set(ctx.model.functions)
+            new = [f for f in ctx.findings if f.key not in base and match_known(f, known, fns) is None]
             if new:
                 return (name, "false_alarm", f"{new[0].rule} {new[0].message[:100]}")
             return (name, "silent", "")
